@@ -762,6 +762,181 @@ def eda_witness(nfa: NFA, root: int, limit=4_000_000):
     return None
 
 
+def _config_graph(nfa: NFA, root: int):
+    """epsilon-free, look-ahead exact configuration graph (see eda_witness): returns (useful configs, successor function)."""
+    alpha = nfa.alpha
+    SY = list(range(alpha.n))
+    memo = {}
+
+    def after(tgt):
+        if tgt in memo:
+            return memo[tgt]
+        out = []
+        for b in SY:
+            for q2, cnt in _closure_paths(nfa, tgt, b).items():
+                if nfa.edge[q2] is not None and b in nfa.edge[q2][0]:
+                    out.append(((q2, b), cnt))
+        memo[tgt] = out
+        return out
+
+    def succ(c):
+        return after(nfa.edge[c[0]][1])
+    init = [c for c, _ in after(root)]
+    reach = set()
+    dq = deque(init)
+    while dq:
+        c = dq.popleft()
+        if c in reach:
+            continue
+        reach.add(c)
+        for c2, _ in succ(c):
+            if c2 not in reach:
+                dq.append(c2)
+    rev = {}
+    accepting = set()
+    for c in reach:
+        for c2, _ in succ(c):
+            rev.setdefault(c2, []).append(c)
+        tgt = nfa.edge[c[0]][1]
+        for b in SY + [END]:
+            if any(nfa.accept[q2] is not None for q2 in _closure_paths(nfa, tgt, b)):
+                accepting.add(c)
+                break
+    useful = set()
+    dq = deque(accepting)
+    while dq:
+        c = dq.popleft()
+        if c in useful:
+            continue
+        useful.add(c)
+        for p in rev.get(c, []):
+            if p not in useful:
+                dq.append(p)
+    # a configuration can FAIL later: some continuation is not accepted.  (Every configuration of a token pattern can, unless everything after it
+    # is universal; polynomial backtracking needs a failing continuation, so configurations whose every continuation succeeds would be exempt.
+    # Not computed: the rule below is "no infinite ambiguity at all", which is stronger.)
+    return useful, (lambda c: [c2 for c2, _ in succ(c) if c2 in useful])
+
+
+def ida_witness(nfa: NFA, root: int, limit=3_000_000):
+    """Infinite (polynomial) degree of ambiguity (Weber & Seidl 1991): two different states p, q on loops and ONE word v with
+    p -v-> p, p -v-> q and q -v-> q.  A backtracking matcher that fails after such a pair tries every way of splitting a run of v's between
+    the two loops: quadratic time (cubic with three loops ...).  Searched in the cube of the configuration graph, with the first component
+    confined to the strongly connected component of p and the third to that of q.  Returns a witness dict or None."""
+    useful, nexts = _config_graph(nfa, root)
+    alpha = nfa.alpha
+    # SCCs (iterative Tarjan)
+    index, low, onst, st, comp = {}, {}, set(), [], {}
+    cnt = [0]
+    ncomp = [0]
+    for r in sorted(useful):
+        if r in index:
+            continue
+        work = [(r, iter(nexts(r)))]
+        index[r] = low[r] = cnt[0]
+        cnt[0] += 1
+        st.append(r)
+        onst.add(r)
+        while work:
+            v, it = work[-1]
+            adv = False
+            for w in it:
+                if w not in index:
+                    index[w] = low[w] = cnt[0]
+                    cnt[0] += 1
+                    st.append(w)
+                    onst.add(w)
+                    work.append((w, iter(nexts(w))))
+                    adv = True
+                    break
+                elif w in onst:
+                    low[v] = min(low[v], index[w])
+            if adv:
+                continue
+            work.pop()
+            if work:
+                u = work[-1][0]
+                low[u] = min(low[u], low[v])
+            if low[v] == index[v]:
+                while True:
+                    w = st.pop()
+                    onst.discard(w)
+                    comp[w] = ncomp[0]
+                    if w == v:
+                        break
+                ncomp[0] += 1
+    size = {}
+    for c, k in comp.items():
+        size[k] = size.get(k, 0) + 1
+    cyclic = {c for c in useful if size[comp[c]] > 1 or c in nexts(c)}
+    by_sym = {}
+    for c in cyclic:
+        by_sym.setdefault(c[1], []).append(c)
+    # forward reachability between configurations (to prune pairs)
+    reach_memo = {}
+
+    def reach_from(c):
+        if c not in reach_memo:
+            seen = {c}
+            dq = deque([c])
+            while dq:
+                x = dq.popleft()
+                for y in nexts(x):
+                    if y not in seen:
+                        seen.add(y)
+                        dq.append(y)
+            reach_memo[c] = seen
+        return reach_memo[c]
+    work_done = 0
+    for sym, cs in sorted(by_sym.items()):
+        for P in sorted(cs):
+            for Q in sorted(cs):
+                if P == Q or comp[P] == comp[Q] or Q not in reach_from(P):
+                    continue       # (same component: two loops through one state - that is EDA, decided by eda_witness)
+                start, goal = (P, P, Q), (P, Q, Q)
+                seen = {start}
+                dq = deque([start])
+                parent = {}
+                found = False
+                while dq and not found:
+                    t = dq.popleft()
+                    n1 = [x for x in nexts(t[0]) if comp[x] == comp[P]]
+                    n3 = [x for x in nexts(t[2]) if comp[x] == comp[Q]]
+                    n2 = nexts(t[1])
+                    for a in n1:
+                        for b in n2:
+                            if b[1] != a[1] or (comp[b] != comp[Q] and Q not in reach_from(b)):
+                                continue
+                            for c in n3:
+                                if c[1] != a[1]:
+                                    continue
+                                nt = (a, b, c)
+                                if nt in seen:
+                                    continue
+                                seen.add(nt)
+                                parent[nt] = t
+                                work_done += 1
+                                if work_done > limit:
+                                    raise AnalysisError("polynomial-ambiguity analysis exceeded its work limit")
+                                if nt == goal:
+                                    found = True
+                                    break
+                                dq.append(nt)
+                            if found:
+                                break
+                        if found:
+                            break
+                if found:
+                    word = []
+                    t = goal
+                    while t != start:
+                        t = parent[t]
+                        word.append(t[0][1])
+                    word.reverse()
+                    return {"kind": "two loops that share a word, joined by a path on the same word", "loop_state": P[0], "second_loop_state": Q[0], "word": alpha.show(word)}
+    return None
+
+
 def _closure_paths(nfa, q0, a):
     """Number of distinct epsilon paths (capped at 2) from q0 to each consuming/accepting state, given next symbol a."""
     out = {}
